@@ -1,17 +1,27 @@
-"""Witness for the known finding  write:rc:108:name-over-2000-chars  (C02).
+"""Witness for the known findings  write:rc:108 / write:rc:2 / write:rc:62 + :name-over-2000-chars  (C02).
 
 Run with:  ./tools/pyasan findings/C02_long_name_then_table.py
-A scalar item whose data name has 2031 characters (valid: the limit is 2048) and whose value is the table
-{'abcdefgh':00088.0}: cif_write() starts the table on the name's line, writes the key, and then cannot place the
-value after the colon (it never wraps there), so it fails with CIF_OVERLENGTH_LINE (108) instead of starting the table
-on a fresh line.  Needs a data name within about 20 characters of the line-length limit."""
+A scalar item whose data name has 2001-2031 characters (valid: the limit is 2048) and whose value is a table or a list
+holding a table: cif_write() starts the composite value on the name's line and never moves to a fresh line inside it,
+so whatever does not fit behind the name makes it fail - with CIF_OVERLENGTH_LINE (108) when the value after a key's
+colon does not fit, with CIF_ERROR (2) or CIF_DISALLOWED_VALUE (62) when a table key itself does not fit - instead of
+starting the table on a fresh line.  Needs a data name within about 50 characters of the line-length limit."""
 import sys
 sys.path.insert(0, '/verif')
 from vp import lib, cifbuild as B
 L = lib.get()
-doc = [{'code': 'b', 'entries': [('item', '_' + 'n' * 2030, ('table', (('abcdefgh', ('numb', '00088.0', False)),)))]}]
-cif = B.build_cif(L, doc)
-rc, data = L.write_bytes(cif)
-L.destroy(cif)
-print('cif_write ->', rc, '(expected 0)')
-sys.exit(0 if rc == 108 else 1)
+cases = [
+    ('_' + 'n' * 2030, ('table', (('abcdefgh', ('numb', '00088.0', False)),)), 108),
+    # (the two cases the thorough tier met, reduced only in the name)
+    ('_' + 'n' * 2000, ('table', (("m(\t];;rhw;y\U00020000XY%{|@\u00b5\\2,\uac00+i5(\u4e2d\t'w^_&@5!Bmm", ('table', ())),)), None),
+    ('_' + 'n' * 2030, ('list', (('table', (('\u200b%;', ('unk',)), ('\U00020000', ('numb', '969.600413859327e-2(4)', False)),
+                                            ('\U0001d11e+', ('numb', '4297181.21E+100', False)), ('1\u00a0\u00c5', ('numb', '+5.', False)))),)), None),
+]
+bad = 0
+for name, value, want in cases:
+    cif = B.build_cif(L, [{'code': 'b', 'entries': [('item', name, value)]}])
+    rc, data = L.write_bytes(cif)
+    L.destroy(cif)
+    print('name of %d characters, %s value: cif_write -> %d (expected 0)' % (len(name), value[0], rc))
+    bad += rc != 0
+sys.exit(0 if bad == len(cases) else 1)
